@@ -409,6 +409,74 @@ func c01Commands(ctx *core.Ctx) {
 			ctx.Check(ok, "V22", "testscript.writeFile#flags"+itoa(n), o.Pos(), "open flags are O_WRONLY|O_CREATE|O_TRUNC, plus O_EXCL exactly when exclusive creation is asked for")
 		}
 	}
+	// ---- V23-V25 (round 6): what "exec prog" finds, what symlink and cp create
+	ctx.Rule("V23", "a directory is not a program: in the PATH search (execpath.findExecutable, unix) nil is returned only for a file whose mode is known not to be a directory and to have an execute bit; a directory named like the program earlier on PATH otherwise satisfies [exec:prog] and makes '! exec prog' pass on 'permission denied'", 1)
+	ctx.Rule("V24", "symlink's target is taken as written: the first operand of os.Symlink in the symlink command is the script argument itself (relative targets are relative to the link's directory), the link name goes through MkAbs", 1)
+	ctx.Rule("V25", "cp keeps the permission bits: the mode given to the copy of a file is the source's mode masked with 0o777 exactly", 1)
+	if fe := p.Func("internal/os/execpath", "findExecutable"); fe != nil {
+		g := graph(p, fe)
+		if len(g.Calls("os.Stat")) > 0 {
+			n := 0
+			for _, r := range g.Returns() {
+				if !ssax.IsNil(ssax.ReturnValues(r)[0]) {
+					continue
+				}
+				n++
+				facts := g.FactsAtInstr(r)
+				notDir := hasFact(facts, false, func(v ssa.Value) bool {
+					c, ok := v.(*ssa.Call)
+					return ok && strings.HasSuffix(ssax.CalleeName(&c.Call), "FileMode).IsDir")
+				}) || hasFact(facts, true, func(v ssa.Value) bool {
+					c, ok := v.(*ssa.Call)
+					return ok && strings.HasSuffix(ssax.CalleeName(&c.Call), "FileMode).IsRegular")
+				})
+				ctx.Check(notDir, "V23", "execpath.findExecutable#ok-return"+itoa(n), r.Pos(), "success is returned only for something known not to be a directory")
+			}
+			if n == 0 {
+				ctx.Unknown("V23", "execpath.findExecutable#ok-return", fe.Pos(), "findExecutable never returns nil")
+			}
+		} else {
+			ctx.Note("V23", "execpath.findExecutable", fe.Pos(), "this platform's findExecutable does not use os.Stat; clause decided on the unix configurations")
+		}
+	} else {
+		ctx.Note("V23", "execpath.findExecutable", token.NoPos, "no findExecutable in this configuration")
+	}
+	if sl := cmds["symlink"]; sl != nil && len(sl.Params) >= 3 {
+		g := graph(p, sl)
+		n := 0
+		for _, c := range g.Calls("os.Symlink") {
+			n++
+			raw := isElemLoad(sl.Params[2], isConstIntV(2))(ssax.Strip(c.Call.Args[0]))
+			abs := false
+			if mc, ok := c.Call.Args[1].(*ssa.Call); ok && strings.HasSuffix(ssax.CalleeName(&mc.Call), "TestScript).MkAbs") {
+				abs = isElemLoad(sl.Params[2], isConstIntV(0))(ssax.Strip(mc.Call.Args[1]))
+			}
+			ctx.Check(raw && abs, "V24", "testscript.cmd:symlink#operands"+itoa(n), c.Pos(), "os.Symlink(target as written (%v), MkAbs(link name) (%v))", raw, abs)
+		}
+		if n == 0 {
+			ctx.Unknown("V24", "testscript.cmd:symlink#operands", sl.Pos(), "the symlink command does not call os.Symlink")
+		}
+	}
+	if cp := cmds["cp"]; cp != nil {
+		g := graph(p, cp)
+		n := 0
+		g.Instrs(func(i ssa.Instruction) {
+			b, ok := i.(*ssa.BinOp)
+			if !ok || b.Op != token.AND {
+				return
+			}
+			mc, isC := b.X.(*ssa.Call)
+			if !isC || !mc.Call.IsInvoke() || mc.Call.Method.Name() != "Mode" {
+				return
+			}
+			n++
+			k, isK := ssax.ConstInt(b.Y)
+			ctx.Check(isK && k == 0o777, "V25", "testscript.cmd:cp#mode-mask"+itoa(n), b.Pos(), "the source's mode is masked with 0o777")
+		})
+		if n == 0 {
+			ctx.Note("V25", "testscript.cmd:cp#mode-mask", cp.Pos(), "cp does not mask the source's mode; clause not decided")
+		}
+	}
 	// ---- V17: skip checks the status of background commands first
 	ctx.Rule("V17", "skip settles background commands like wait does: on the way to T.Skip the background commands are waited for with their exit status checked (waitBackground(true), directly or through the wait command)", 1)
 	if sk := cmds["skip"]; sk != nil {
